@@ -294,9 +294,14 @@ def judge_v2(op, g, sp, out, full):
             out.add("C13", "Target Distribution None but environmental score %s" % kk[2])
     if not full:
         return
-    if g.get("fc") != sp.get("fc"):
-        out.add("C09", "fields %s, written %s" % (g.get("fc"), sp.get("fc")))
-    emp = _split(g, "emp")
+    # v2: fields of a group that is not written are not constrained (only IsEmpty is)
+    gfc = _split(g, "fc")
+    sfc = _split(sp, "fc")
+    for i, (a, b) in enumerate(zip(gfc, sfc)):
+        present = i < 6 or (i < 9 and grp[0] == "1") or (i >= 9 and grp[1] == "1")
+        if present and a != b:
+            out.add("C09", "field %d holds %r, written %r" % (i, a, b))
+    emp = [e for e in _split(g, "emp") if e != ""]
     want_emp = [("false" if grp[0] == "1" else "true"), ("false" if grp[1] == "1" else "true")]
     for i, e in enumerate(emp):
         if e != want_emp[i]:
